@@ -292,6 +292,27 @@ DeviationTarget(cs, opt) ==
                   ELSE [st |-> <<>>, dirs |-> InitFs(opt.preout), new |-> {}]
          IN IF WriteOkIn(t, m.dirs) THEN {WrittenPathIn(t, m.dirs)} ELSE {}
 
+\* ---------------------------------------------------------------------------------------------------
+\* the TEXTUAL view of a name (components + the separator written between them), and why it must not matter
+\* ---------------------------------------------------------------------------------------------------
+\* The code as written decides per entry and on components (SystemPath drops the separator kinds).  Any shortcut that works on
+\* the TEXT of a name sees something else: a splitter that knows ONE separator kind cuts the name only where that kind is written,
+\* so a piece may still hold separators of the other kind -- and `..` components behind them.
+CutsOf(n, kind) == {i \in 1..Len(n.s) : n.s[i] = kind}
+LastCut(n, kind) == LET cu == CutsOf(n, kind) IN IF cu = {} THEN 0 ELSE CHOOSE i \in cu : \A j \in cu : j <= i
+\* "directory" text (everything before the last separator of that kind; empty when there is none) and the remainder
+DirKeyOf(n, kind) == LET q == LastCut(n, kind) IN [c |-> SubSeq(n.c, 1, q), s |-> SubSeq(n.s, 1, q - 1)]
+RestOf(n, kind) == SubSeq(n.c, LastCut(n, kind) + 1, Len(n.c))
+\* DEVIATION class "state carried from the previous entry, keyed by text": the directory resolved for the previously ACCEPTED entry is
+\* reused when the next name has the same directory text, and the remainder is joined to it without passing the guard.  On a hit
+\* directory components + remainder = the name's components, so the entry is written where the unguarded deviation writes it.
+SepCacheHit(prev, cur, kind, opt) == opt.preserve /\ ~BadForGuard(prev.c) /\ DirKeyOf(prev, kind) = DirKeyOf(cur, kind)
+SepCacheEscapes(prev, cur, kind, opt) == SepCacheHit(prev, cur, kind, opt) /\ EscapesUnguarded(cur.c, opt.preserve, opt.explicit)
+\* separators written uniformly: the remainder is one component, the directory text is a prefix of an accepted name -- such a
+\* pair can never make a text-keyed shortcut leave `out` (TLC evaluates this over the generator's pairs: the uniform pairs
+\* are blind to the class, the mixed ones are not)
+UniformSeps(n) == \A i, j \in 1..Len(n.s) : n.s[i] = n.s[j]
+
 SingleEntry == Len(vall) = 1
 Terminal == vst \in {"done", "aborted"}
 \* deviation: an escape happens exactly for the characterised entries (single-entry runs from a clean fs)
